@@ -273,6 +273,96 @@ def k4(cx):
         cx.check("".join(str(res[0]["result"]).split()) == want, gt, construct=f"Arg(atype, pointer={ptr}).get_c_type() = {res[0]['result']!r}", detail="'*' appended exactly for pointer arguments", bad_detail=f"declared C type is {res[0]['result']!r}, expected {want!r}", sub="cdef")
 
 
+@rule("K4e", ["C17"], "kernel calls, evaluated: every declared argument converted and delivered in declared order, the return value handed back, malformed calls refused before the C function runs")
+def k4e(cx):
+    """`KernelCpu.__call__` (serial and OpenMP context), `KernelCupy.__call__`, `KernelPyopencl.__call__` and
+    `KernelDispatcher.__call__` of the current source are run with a recording argument converter and a recording C
+    function on a three-argument kernel (x: pointer, n: int, scale: double), with and without a declared return value:
+    a well-formed call (keywords in any order) calls the function exactly once with the three converted arguments in
+    DECLARED order and returns what the function returned; a call with a missing, an extra, a misspelt or a
+    positional argument raises and the function is never called."""
+    from ..peval import Interp, Obj as _Obj, Opaque as _Op, Builtin as _B, PyExc as _PyExc
+    m = cx.m
+    ncase = 0
+    RAW = _Op("raw-return")
+    for spec in ("context_cpu::KernelCpu", "context_cupy::KernelCupy", "context_pyopencl::KernelPyopencl"):
+        fnode = m.func(spec + ".__call__")
+        gpu = not spec.startswith("context_cpu")
+        for with_ret in ((False, True) if not gpu else (False,)):
+            for omp in ((False, True) if not gpu else (False,)):
+                def world():
+                    I = Interp(m)
+                    K = I.global_lookup(*spec.split("::"))
+                    calls, convs = [], []
+
+                    def fn(*a, **k):
+                        calls.append((a, k))
+                        return _Obj("instance", {"wait": _B("event.wait", lambda: None)}, name="event") if gpu else RAW
+
+                    args = [_Obj("instance", {"name": nm}, name=f"arg_{nm}") for nm in ("x", "n", "scale")]
+                    desc = _Obj("instance", {"args": args, "n_threads": 7, "ret": (_Obj("instance", {"name": "ret"}, name="ret") if with_ret else None), "pyname": "k"}, name="description")
+                    ctx = _Obj("instance", {"queue": _Op("queue"), "openmp_enabled": omp, "omp_num_threads": 2, "omp_set_num_threads": _B("omp_set_num_threads", lambda n_: None)}, name="ctx")
+
+                    def conv(arg, v):
+                        convs.append(I.getattr(arg, "name"))
+                        return ("conv", I.getattr(arg, "name"), v)
+
+                    me = _Obj("instance", {"description": desc, "function": _B("C function", fn), "context": ctx, "block_size": 8, "shared_mem_size_bytes": 0, "wait_on_call": True,
+                                           "to_function_arg": _B("to_function_arg", conv), "ffi_interface": _Op("ffi")}, cls=K)
+                    return I, me, calls, convs
+
+                label0 = f"{spec.split('::')[1]}" + (" (OpenMP context)" if omp else "") + (", declared return value" if with_ret else "")
+                VX, VN, VS = _Op("xdata"), 5, 0.5
+                good = {"scale": VS, "x": VX, "n": VN}
+                for what, kw in (("well-formed, keywords in another order", good), ("missing argument", {"x": VX, "n": VN}), ("extra argument", dict(good, extra=1)),
+                                 ("misspelt argument (same count)", {"x": VX, "n": VN, "scal": VS}), ("misspelt pointer argument", {"xx": VX, "n": VN, "scale": VS})):
+                    I, me, calls, convs = world()
+                    try:
+                        res = I.explore(lambda: I.call(I.getattr(me, "__call__"), [], dict(kw)), max_paths=8)
+                    except AnalysisError as e:
+                        cx.recog(False, fnode, f"{label0}: {e}")
+                    cx.recog(len(res) == 1, fnode, f"{label0}, {what}: {len(res)} evaluation paths")
+                    r = res[0]
+                    ncase += 1
+                    if what.startswith("well-formed"):
+                        why = ""
+                        if r["exc"] is not None:
+                            why = f"raises {r['exc'].etype}: {r['exc'].msg}"
+                        elif len(calls) != 1:
+                            why = f"the C function is called {len(calls)} times"
+                        else:
+                            a, k = calls[0]
+                            flat = [x for x in a if isinstance(x, tuple) and x and x[0] == "conv"] + [y for x in a if isinstance(x, list) for y in x]
+                            if [x[1:] for x in flat] != [("x", VX), ("n", VN), ("scale", VS)]:
+                                why = f"the function receives {flat!r}, expected the converted x, n, scale in declared order"
+                            elif not gpu and with_ret and r["result"] is not RAW:
+                                why = f"returns {r['result']!r}, the function returned {RAW!r}"
+                        cx.check(not why, None, construct=f"{label0}: {what}", detail="one call of the C function with the converted arguments in declared order; its return value handed back", bad_detail=why, anchor=spec + ".__call__", sub="deliver")
+                    else:
+                        why = ""
+                        if r["exc"] is None:
+                            why = "the call is accepted" + (f" (the function received {calls[0][0]!r})" if calls else "")
+                        elif calls:
+                            why = f"refused with {r['exc'].etype} only after the C function had been called"
+                        cx.check(not why, None, construct=f"{label0}: {what}", detail="refused before the C function runs", bad_detail=why + ": the kernel runs with a missing / wrong argument", anchor=spec + ".__call__", sub="refuse")
+    # dispatcher: positional arguments refused, keywords forwarded unchanged
+    I = Interp(m)
+    KD = I.global_lookup("context", "KernelDispatcher")
+    got = []
+    kern = _B("kernel", lambda *a, **k: (got.append((a, k)), "ret")[1])
+    d = I.call(KD, ["k", {"k": kern}], {})
+    for what, a, k in (("positional argument", [1], {"n": 2}), ("only positional", [1, 2], {}), ("keywords", [], {"x": 1, "n": 2})):
+        got.clear()
+        res = I.explore(lambda: I.call(I.getattr(d, "__call__"), list(a), dict(k)), max_paths=4)
+        cx.recog(len(res) == 1, m.func("context::KernelDispatcher.__call__"), f"KernelDispatcher.__call__ ({what}): {len(res)} paths")
+        ncase += 1
+        if a:
+            cx.check(res[0]["exc"] is not None and not got, None, construct=f"KernelDispatcher.__call__: {what}", detail="refused before the kernel is called", bad_detail="a positional argument is accepted / the kernel is called before the refusal", anchor="context::KernelDispatcher.__call__", sub="positional")
+        else:
+            cx.check(res[0]["exc"] is None and got == [((), dict(k))] and res[0]["result"] == "ret", None, construct=f"KernelDispatcher.__call__: {what}", detail="all named arguments forwarded unchanged, the kernel's result returned", bad_detail=f"keywords are not forwarded unchanged to the named kernel: {got!r}", anchor="context::KernelDispatcher.__call__", sub="forward")
+    cx.need(ncase >= 30, f"only {ncase} kernel-call cases")
+
+
 @rule("K6", ["C16"], "launch geometry: CUDA grid = ceil(n/block) blocks of block_size, OpenCL global size n; n resolved from the named argument")
 def k6(cx):
     """evaluated: both launchers are run with recording device functions, the thread count given as a constant and as
